@@ -356,7 +356,7 @@ ares_status_t ares_dns_name_write(ares_buf_t *buf, ares_llist_t **list,
   size_t                   orig_name_len;
   size_t                   pos    = ares_buf_len(buf);
   ares_array_t            *labels = NULL;
-  char                     name_copy[512];
+  char                    *name_copy = NULL;
   ares_status_t            status;
 
   if (buf == NULL || name == NULL) {
@@ -368,9 +368,16 @@ ares_status_t ares_dns_name_write(ares_buf_t *buf, ares_llist_t **list,
     return ARES_ENOMEM;
   }
 
-  /* NOTE: due to possible escaping, name_copy buffer is > 256 to allow for
-   *       this */
-  name_len      = ares_strcpy(name_copy, name, sizeof(name_copy));
+  /* NOTE: due to escaping the presentation form can be up to four times the
+   *       wire length (every octet as \DDD), so work on a full copy: a fixed
+   *       buffer silently cut such names short and a different, shorter name
+   *       was written */
+  name_copy = ares_strdup(name);
+  if (name_copy == NULL) {
+    status = ARES_ENOMEM; /* LCOV_EXCL_LINE: OutOfMemory */
+    goto done;            /* LCOV_EXCL_LINE: OutOfMemory */
+  }
+  name_len      = ares_strlen(name_copy);
   orig_name_len = name_len;
 
   /* Find longest match */
@@ -441,6 +448,7 @@ ares_status_t ares_dns_name_write(ares_buf_t *buf, ares_llist_t **list,
   status = ARES_SUCCESS;
 
 done:
+  ares_free(name_copy);
   ares_array_destroy(labels);
   return status;
 }
